@@ -386,7 +386,7 @@ func (fv *FuncVC) processBlock(b *ssa.BasicBlock) {
 				if li.spec != nil {
 					fv.oblBlk = b.Index
 					for k, inv := range li.spec.Invariants {
-						goal := env.trBool(inv.E)
+						goal := env.withPol(1).trBool(inv.E)
 						fv.obligeAt(guards[i], "loop/init", fmt.Sprintf("loop%d/init:inv%d", li.ord, k), clauseProps(inv, fv.props()), goal, token.NoPos,
 							fmt.Sprintf("invariant %s holds on loop entry", exprString(inv.E)), inv.Bounded)
 					}
@@ -445,7 +445,7 @@ func (fv *FuncVC) processBlock(b *ssa.BasicBlock) {
 		if li.spec != nil {
 			fv.oblBlk = b.Index
 			for k, inv := range li.spec.Invariants {
-				goal := env.trBool(inv.E)
+				goal := env.withPol(1).trBool(inv.E)
 				fv.obligeAt(g, "loop/preserve", fmt.Sprintf("loop%d/preserve:inv%d", li.ord, k), clauseProps(inv, fv.props()), goal, token.NoPos,
 					fmt.Sprintf("invariant %s is preserved", exprString(inv.E)), inv.Bounded)
 			}
@@ -950,6 +950,10 @@ func (fv *FuncVC) lookup(x *ssa.Lookup) {
 	has, val, _ := e.mapHeaps(m)
 	id := fv.val(x.X)
 	k := fv.val(x.Index)
+	if tb := fv.tableOf(x.X); tb != nil && tb.StrMap {
+		fv.strmapLookup(x, tb, m, id, k)
+		return
+	}
 	if tb := fv.tableOf(x.X); tb != nil {
 		fv.tableFns[x] = &tableRef{tb: tb, key: k}
 		if len(tb.Keys) > 0 {
@@ -1035,6 +1039,41 @@ func (fv *FuncVC) rangeNext(x *ssa.Next) {
 	fv.tups[x] = []Term{okc, k, v}
 }
 
+// strmapLookup: lookup in a specified map[string]string literal. The literal is read
+// from the AST on every run: membership and value are exactly those of the literal
+// (the map is never written: frame obligations), and the strmap's sem clauses (each
+// proved per entry) hold for the looked-up pair.
+func (fv *FuncVC) strmapLookup(x *ssa.Lookup, tb *TableSpec, m *types.Map, id, k Term) {
+	e := fv.e
+	entries, order, err := fv.P.mapLiteral(tb.Pkg, tb.Var)
+	if err != nil {
+		specFail("strmap %s: %v", tb.Var, err)
+	}
+	var has []Term
+	val := e.zero(m.Elem())
+	for i := len(order) - 1; i >= 0; i-- {
+		key := order[i]
+		v := strings.Trim(entries[key], "\"")
+		has = append(has, eq(k, e.strLit(key)))
+		val = app("ite", eq(k, e.strLit(key)), e.strLit(v), val)
+	}
+	okc := e.fresh(x.Name()+"_ok", "Bool")
+	fv.define(eq(okc, or(has...)))
+	vc := e.fresh(x.Name()+"_v", e.sortOf(m.Elem()))
+	fv.define(eq(vc, val))
+	env := &Env{e: e, vars: map[string]TV{}, st: fv.st, old: fv.st, pkg: tb.Pkg, alloc0: fv.alloc0}
+	env.vars[tb.KeyVar] = TV{k, tyString}
+	env.vars[tb.ValVar] = TV{vc, tyString}
+	for _, sem := range tb.Sem {
+		fv.assume(implies(okc, env.trBool(sem.E)))
+	}
+	if x.CommaOk {
+		fv.tups[x] = []Term{vc, okc}
+	} else {
+		fv.vals[x] = vc
+	}
+}
+
 // tableOf: is v the value of a package-level function table that has a table spec?
 func (fv *FuncVC) tableOf(v ssa.Value) *TableSpec {
 	u, ok := v.(*ssa.UnOp)
@@ -1066,7 +1105,7 @@ func (fv *FuncVC) doReturn(x *ssa.Return) {
 		env.vars[alias] = TV{fv.val(x.Results[i]), x.Results[i].Type()}
 	}
 	for k, en := range fv.c.Ensures {
-		goal := env.trBool(en.E)
+		goal := env.withPol(1).trBool(en.E)
 		fv.obligeAt(fv.cur, "post", fmt.Sprintf("post:%d", k), clauseProps(en, fv.props()), goal, x.Pos(), "ensures "+exprString(en.E), en.Bounded)
 	}
 }
